@@ -30,11 +30,21 @@ struct TraceBus {
     /// acknowledgement (0 none, 1 a state report, 2 the ack of another operation, 3 the ack from another address)
     nack: Option<(usize, u8)>,
     pub log: Vec<(RefMsg, Option<RefMsg>)>,
+    /// the bus fails ONCE, at the message with this index in the log (with the error flavour given), after logging it
+    fail_once_at: Option<(usize, u8)>,
+    pub failed: bool,
 }
 
 impl SignBus for TraceBus {
     fn process_message<'a>(&mut self, message: Message<'_>) -> Result<Option<Message<'a>>, Box<dyn std::error::Error + Send + Sync>> {
         let m = refs::to_ref(&message);
+        if let Some((at, flavour)) = self.fail_once_at {
+            if at == self.log.len() && !self.failed {
+                self.failed = true;
+                self.log.push((m, None));
+                return Err(crate::doubles::bus_error(flavour));
+            }
+        }
         // decide whether to swallow this chunk (the first chunk of a failing attempt)
         let mut swallow = false;
         if let RefMsg::Request(_, o) = &m {
@@ -254,6 +264,8 @@ fn run_case(c: &Case, rep: &mut Report) {
         swallowed_this_attempt: false,
         nack: c.nack,
         log: vec![],
+        fail_once_at: None,
+        failed: false,
     }));
     let sign = ctl::mk_sign(tb.clone(), c.own, c.ty);
     let mut prior_bad = vec![];
@@ -276,6 +288,14 @@ fn run_case(c: &Case, rep: &mut Report) {
         b.attempts_seen = 0;
         b.swallowed_this_attempt = false;
     }
+    // one call in seven meets a bus that fails ONCE, at a message somewhere in the call (any of the ten kinds of error):
+    // the call ends there, and what was sent up to there is a prefix of the prescribed stream — a chunk is never handed
+    // over twice, whatever the error looks like
+    let h = fnv(c.sig().as_bytes());
+    if c.nack.is_none() && c.fail_attempts == 0 && h % 7 == 3 {
+        let mut b = tb.borrow_mut();
+        b.fail_once_at = Some((b.log.len() + (h >> 8) as usize % 24, (h >> 20) as u8 % crate::doubles::N_BUS_ERROR_FLAVOURS));
+    }
     let pages: Vec<Page<'static>> = c.pages.iter().map(|(w, h, b)| ctl::page_from_image(*w, *h, b.clone())).collect();
     // a third of the page lists reach send_pages as an adaptor iterator (a filter that keeps everything: its size_hint
     // has a lower bound of 0) instead of a slice
@@ -296,7 +316,19 @@ fn run_case(c: &Case, rep: &mut Report) {
         }
     } else if c.op == Op::SendPages && fnv(c.sig().as_bytes()) % 3 == 0 {
         rep.count("page_lists_passed_as_adaptor_iterators");
-        let r = crate::util::catch(std::panic::AssertUnwindSafe(|| sign.send_pages(pages.iter().filter(|p| p.width() < u32::MAX))));
+        // ... and the closure LOOKS AT THE BUS (the application watches the traffic, or drives another sign, while its pages
+        // are being pulled): a lazy page list runs between the controller's bus calls, never inside one
+        let peeks = std::cell::Cell::new(0usize);
+        let r = crate::util::catch(std::panic::AssertUnwindSafe(|| {
+            sign.send_pages(pages.iter().filter(|p| {
+                peeks.set(peeks.get() + tb.borrow().log.len().min(1) + 1);
+                let _ = tb.borrow_mut().log.len();
+                p.width() < u32::MAX
+            }))
+        }));
+        if peeks.get() > 0 {
+            rep.count("page_lists_whose_iterator_looks_at_the_bus");
+        }
         match r {
             Ok(Ok(flipdot::PageFlipStyle::Automatic)) => SignOut::OkStyle { automatic: true },
             Ok(Ok(flipdot::PageFlipStyle::Manual)) => SignOut::OkStyle { automatic: false },
@@ -312,6 +344,15 @@ fn run_case(c: &Case, rep: &mut Report) {
     let log = std::mem::take(&mut tb.borrow_mut().log);
     let (xop, items): (usize, Vec<Vec<u8>>) = if c.op == Op::Configure { (O_RECV_CFG, vec![BLOCKS[c.ty].to_vec()]) } else { (O_RECV_PIX, c.pages.iter().map(|p| p.2.clone()).collect()) };
     let mut bad = check_trace(&log, c.own, xop, &items, rep);
+    if tb.borrow().failed {
+        // the bus failed during this call: the log may end anywhere (and must end at the failure — C11 checks that); only
+        // what WAS sent is judged here
+        rep.count("calls_that_met_a_one_shot_bus_error");
+        bad.retain(|(_, what)| !(what.ends_with("end of log") || what.ends_with("came nothing") || what.starts_with("no acknowledged transfer request")));
+        if let SignOut::Ok | SignOut::OkStyle { .. } = &out {
+            bad.push(("success_despite_bus_error", "the bus failed during the call, yet the call returned success".into()));
+        }
+    }
     for (class, what) in prior_bad {
         bad.push((class, format!("in the earlier call on the same Sign object: {}", what)));
     }
@@ -556,6 +597,8 @@ pub fn run(ctx: &Ctx) -> Outcome {
     let floors = vec![
         floor("all fixed cases ran (11 types x 4 addresses x 0..3 failing attempts x 2 sign sides x 2 operations)", report.get("cases/configure_all_types") == 352 && report.get("cases/send_pages_all_types") == 352, report.get("cases/send_pages_all_types")),
         floor("page lists that can be walked only once", report.get("page_lists_that_can_be_walked_only_once") > 500, report.get("page_lists_that_can_be_walked_only_once")),
+        floor("page lists whose iterator borrows the bus (shared and mutably) every time a page is pulled", report.get("page_lists_whose_iterator_looks_at_the_bus") > 500, report.get("page_lists_whose_iterator_looks_at_the_bus")),
+        floor("calls that met a bus failing once, somewhere in the call", report.get("calls_that_met_a_one_shot_bus_error") > 500, report.get("calls_that_met_a_one_shot_bus_error")),
         floor("page lists handed over as adaptor iterators", report.get("page_lists_passed_as_adaptor_iterators") > 1000, report.get("page_lists_passed_as_adaptor_iterators")),
         floor("multi-page transfers", report.get("multi_page_transfers") > 0, report.get("multi_page_transfers")),
         floor("calls with 1, 2 and 3 attempts", att(1) && att(2) && att(3), report.set_len("attempts_per_call")),
